@@ -198,6 +198,15 @@ Section Families.
       specialize (Hf (fst e) (in_map fst _ _ Hin)). destruct (fp_lookup fp1 (fst e)); [discriminate|reflexivity].
   Qed.
 
+  (* the three vector families together *)
+  Lemma vec_framed : table_framed (tbl_bvec ++ tbl_ivec ++ tbl_fvec) fp_vec.
+  Proof.
+    unfold fp_vec.
+    apply (table_framed_app _ _ _ _ bvec_framed); [|vm_compute; reflexivity].
+    apply (table_framed_app _ _ _ _ ivec_framed); [|vm_compute; reflexivity].
+    exact fvec_framed.
+  Qed.
+
   Ltac frame_tac_nbr :=
     let p := fresh "p" in let w := fresh "w" in let s := fresh "s" in
     let w' := fresh "w'" in let s' := fresh "s'" in let H := fresh "H" in
